@@ -39,8 +39,9 @@ from vp.gen.c01_ref import DECORATOR_LABELS, UNKNOWN, Binder, doc_texts
 ID = "C01"
 LEVEL = "exploration"
 RULE = (
-    "Hypothesis-generated structural module models (three layouts: module m, module p.m, package p/__init__; nested defs/classes, plain/annotated/multi-target assignments, every import form, "
-    "__all__ forms, if/elif/else, try/except/else/finally, for, with, if TYPE_CHECKING blocks, __init__ instance attributes, docstring "
+    "Hypothesis-generated structural module models (five layouts: m, p.m, p/__init__, p.q.m, p/q/__init__; nested defs/classes, plain/annotated/multi-target assignments, every import form, "
+    "__all__ forms (also re-assigned inside blocks), if/elif/else, try/except/else/finally, for, with, while, match, TYPE_CHECKING blocks, property "
+    "setter groups, __init__ instance attributes and definitions nested in __init__, docstring "
     "literals at legal and illegal positions, decorators from the label tables through every import form, unsupported binders; names from a "
     "pool of 10 so duplicates are the norm) rendered to text; each text judged against a reference binder over ast.parse. "
     "non-trivial = module has a duplicate binding, a definition inside a compound statement, a nested class, a decorated definition, an "
@@ -57,9 +58,15 @@ ASSUMPTIONS = [
     "typing.overload stubs are only generated as complete groups (stubs immediately followed by the implementation); the member is the implementation",
     "decorator names and TYPE_CHECKING are bound only by an import prelude at the top of the module (optionally inside try/except ImportError), "
     "so that their resolution is decided by Python scoping without ambiguity",
-    "`if TYPE_CHECKING` / `if typing.TYPE_CHECKING` is generated only directly in module/class bodies (nested placements are left open by the statement)",
+    "`if TYPE_CHECKING` / `if typing.TYPE_CHECKING` directly in module/class bodies guards its body; below another block or as `elif` the runtime flag "
+    "of the contained definitions is not judged (left open by the statement)",
+    "`@x.setter` / `@x.deleter def x` over an existing property: either definition may represent the attribute",
+    "`while` / `match` blocks are not among the blocks the property names: names bound inside them may or may not be members; definitions nested in "
+    "`__init__` must not raise and must not become class members, where they are recorded is not judged",
+    "exports are those of the surviving `__all__` binding (a conditional re-assignment that does not displace the existing attribute leaves them "
+    "unchanged; where the surviving binding is open, exports are not judged), extended by later module-level `__all__ += [...]`",
     "an attribute without own docstring that re-binds an earlier binding of the same name may carry that earlier docstring (documented forwarding) or none",
-    "relative imports (level 1) are generated only for a module p.m inside a package p or for the package's own __init__ module; `from . import name` inside "
+    "relative imports (levels 1-2, never beyond the top-level package) are generated for the layouts p.m, p/__init__, p.q.m and p/q/__init__; `from . import name` inside "
     "an __init__ module may or may not yield a member (the name is the submodule itself); no import targets the module itself",
     "with griffe.load the built-in dataclasses extension may add a synthesized __init__ (lineno 0) to dataclass-decorated classes: ignored",
     "docstring text is compared with inspect.cleandoc of the literal, with or without the literal's trailing whitespace",
@@ -115,7 +122,11 @@ def _recorder_cls():
 
 # ------------------------------------------------------------------------------------------- running Griffe
 def modname_of(case) -> str:
-    return {"sub": "p.m", "init": "p"}.get(case.get("layout"), "m")
+    return {"sub": "p.m", "init": "p", "deep": "p.q.m", "subinit": "p.q"}.get(case.get("layout"), "m")
+
+
+def is_init_of(case) -> bool:
+    return case.get("layout") in ("init", "subinit")
 
 
 def run_griffe(case, text: str):
@@ -137,19 +148,34 @@ def run_griffe(case, text: str):
             elif init:
                 (tmp / "p").mkdir()
                 (tmp / "p" / "__init__.py").write_text(text)
+            elif layout in ("deep", "subinit"):
+                (tmp / "p" / "q").mkdir(parents=True)
+                (tmp / "p" / "__init__.py").write_text("")
+                if layout == "deep":
+                    (tmp / "p" / "q" / "__init__.py").write_text("")
+                    (tmp / "p" / "q" / "m.py").write_text(text)
+                else:
+                    (tmp / "p" / "q" / "__init__.py").write_text(text)
             else:
                 (tmp / "m.py").write_text(text)
             exts = griffe.load_extensions(rec)
             top = call(
                 "total",
                 griffe.load,
-                "p" if (sub or init) else "m",
+                "m" if layout == "top" else "p",
                 search_paths=[str(tmp)],
                 allow_inspection=False,
                 extensions=exts,
                 what="griffe.load(allow_inspection=False)",
             )
-            mod = top.members["m"] if sub else top
+            if sub:
+                mod = top.members["m"]
+            elif layout == "deep":
+                mod = top.members["q"].members["m"]
+            elif layout == "subinit":
+                mod = top.members["q"]
+            else:
+                mod = top
         finally:
             shutil.rmtree(tmp, ignore_errors=True)
         return mod, rec.events
@@ -162,10 +188,16 @@ def run_griffe(case, text: str):
         parent = griffe.Module("p", filepath=root / "p" / "__init__.py")
     elif init:
         fp = root / "p" / "__init__.py"
+    elif layout == "deep":
+        fp = root / "p" / "q" / "m.py"
+        parent = griffe.Module("q", filepath=root / "p" / "q" / "__init__.py", parent=griffe.Module("p", filepath=root / "p" / "__init__.py"))
+    elif layout == "subinit":
+        fp = root / "p" / "q" / "__init__.py"
+        parent = griffe.Module("p", filepath=root / "p" / "__init__.py")
     else:
         fp = root / "m.py"
     lc[fp] = text.splitlines(keepends=False)
-    mod = call("total", griffe.visit, "p" if init else "m", filepath=fp, code=text, extensions=exts, parent=parent, lines_collection=lc, what="griffe.visit")
+    mod = call("total", griffe.visit, {"init": "p", "subinit": "q"}.get(layout, "m"), filepath=fp, code=text, extensions=exts, parent=parent, lines_collection=lc, what="griffe.visit")
     return mod, rec.events
 
 
@@ -528,6 +560,14 @@ def features(case, binder: Binder, text: str) -> tuple:
                 if h.via_init is not None:
                     cls.add("init-attr")
                     nontrivial = True
+                if h.is_setter:
+                    cls.add("property-setter")
+                if name == "__all__" and h.nest and i > 0 and scope.kind == "module":
+                    cls.add("__all__-reassigned-in-block")
+                    if scope.exports is not UNKNOWN:
+                        cls.add("__all__-conditional-kept")
+                if isinstance(h.node, ast.ImportFrom) and h.node.level > 1:
+                    cls.add("relative-import-level2")
                 if getattr(h.node, "decorator_list", None):
                     cls.add("decorated")
                     nontrivial = True
@@ -561,6 +601,30 @@ def features(case, binder: Binder, text: str) -> tuple:
                 cls.add("__all__-empty")
 
     walk(binder.root, 0)
+
+    def model(stmts):
+        for st_ in stmts or []:
+            if not isinstance(st_, dict):
+                continue
+            k = st_.get("k")
+            if k == "idef":
+                cls.add("init-nested-" + st_["form"])
+            elif k in ("while", "match"):
+                cls.add("open-block:" + k)
+            elif k == "if" and (st_.get("eliftc") and st_.get("elifs")):
+                cls.add("elif-type-checking")
+            for v in st_.values():
+                if isinstance(v, list):
+                    model(v)
+                    for x in v:
+                        if isinstance(x, list):
+                            model(x)
+            if isinstance(st_.get("impl"), dict):
+                model([st_["impl"]])
+
+    model(case.get("body"))
+    if any(c is not None and c.guarded is None for sc in [binder.root] for cands in sc.state.values() for c in cands):
+        cls.add("type-guard-left-open")
     cls.add("entry:" + case.get("entry", "visit"))
     cls.add("layout:" + case.get("layout", "top"))
     n = text.count("\n")
@@ -592,7 +656,7 @@ def check_case(case) -> list[Fail]:
             return c01_wide.check_text(case, case["text"], _LAST)
     else:
         text = c01_mod.render(case)
-    binder = Binder(text, modname_of(case), is_init=case.get("layout") == "init")
+    binder = Binder(text, modname_of(case), is_init=is_init_of(case))
     nontrivial, classes = features(case, binder, text)
     _LAST["case"] = case
     _LAST["info"] = (digest(text) if nontrivial else None, classes, {"entry": case.get("entry", "visit"), "module": modname_of(case), "source": text} if nontrivial and len(text) < 1500 else None)
